@@ -39,8 +39,11 @@ def evaluate(prop, cases, workdir, tag):
         c.setdefault("include", None)
         c.setdefault("want_text", False)
     try:
-        results = run_driver([{k: c[k] for k in ("id", "wgsl", "include", "opts", "want_text")} for c in cases],
-                             workdir, tag, timeout=getattr(prop, "DRIVER_TIMEOUT", 3000))
+        plain = [{k: c[k] for k in ("id", "wgsl", "include", "opts", "want_text")} for c in cases]
+        if hasattr(prop, "run_cases"):
+            results = prop.run_cases(plain, cases, workdir, tag)
+        else:
+            results = run_driver(plain, workdir, tag, timeout=getattr(prop, "DRIVER_TIMEOUT", 3000))
     except subprocess.TimeoutExpired:
         # the generator did not finish: every case of this batch is reported as failing its property
         recs = [{"case": c, "res": {"parse_ok": True, "result": "timeout", "features": []},
@@ -55,6 +58,11 @@ def evaluate(prop, cases, workdir, tag):
             continue
         real = coq_real(r)
         if real is None:
+            if hasattr(prop, "verdict_expr_noout"):
+                defs = "Definition ir_%d : module := %s." % (c["id"], r["ir"])
+                items.append((c["id"], defs, prop.verdict_expr_noout(c, r, "ir_%d" % c["id"])))
+                rec["noout"] = True
+                continue
             rec["skip"] = "extract_error: %s" % r.get("extract_err")
             continue
         defs = "Definition ir_%d : module := %s.\nDefinition real_%d : result out := %s." % (
@@ -134,6 +142,14 @@ def main(prop_name, tier, seed, replay=None):
         stage_lists = prop.stages(rng, tier)
     else:
         stage_lists = [prop.cases(rng, tier)]
+    if not replay and stage_lists:
+        # the witnesses of the listed known findings run first, as a corpus
+        wit = [{"wgsl": k["witness"]["wgsl"], "include": k["witness"].get("include"),
+                "opts": dict(k["witness"].get("opts", {})), "family": "known_finding_witness",
+                **(prop.witness_case(k) if hasattr(prop, "witness_case") else {})}
+               for k in load_known_findings()
+               if k.get("property") == prop.ID and k.get("status") == "open" and k.get("witness")]
+        stage_lists[0] = wit + list(stage_lists[0])
     recs, errors = [], []
     for si, cases in enumerate(stage_lists):
         r, e = evaluate(prop, cases, workdir, "main%d" % si)
